@@ -159,7 +159,9 @@ def run(ctx, rep):
     tn = gauss.gm_method(ctx, '_transform_to_normal')
     ppf = [c for c in walk_no_nested(tn.node) if isinstance(c, ast.Call) and prog.resolve(tn.module, c.func) in (
         'scipy.stats.norm.ppf', 'scipy.special.ndtri')]
-    rep.floor('D3.scores', 'norm.ppf calls in the transform', len(ppf), 1)
+    if not ppf:
+        rep.undecided('D3.scores', tn, tn.node.name, 'no norm.ppf call in _transform_to_normal itself (moved into a helper?): the kind of its argument is not derived here',
+                      construct='norm.ppf argument')
     for c in ppf:
         ks = {repr(a[0]) for _p, _c, a, _k in facts.get(('_transform_to_normal', id(c)), []) if a}
         if ks == {"'P0'"}:
